@@ -9,9 +9,11 @@ out=${SEEDTEST_OUT:-/tmp/nv-seedtest}
 mkdir -p $out
 for id in "$@"; do
   log=$out/$(basename $(dirname $(dirname $patch)))-$(basename $(dirname $patch))-$id.log
-  (cd /verif && NVSIM_EVIDENCE_DIR=$out/ev NVSIM_OUT=$out/out ./check $id > $log 2>&1); rc=$?
+  (cd /verif && NVSIM_EVIDENCE_DIR=$out/ev NVSIM_OUT=$out/out timeout -k 10 ${SEEDTEST_TIMEOUT:-1500} ./check $id > $log 2>&1); rc=$?
+  # (leftover workers of a check that was cut off)
+  if [ $rc = 124 ] || [ $rc = 137 ]; then pgrep -f "target/sim.*/nvsim worker" | xargs -r kill -9 2>/dev/null; fi
   classes=$(grep -E "^  class=" $log | sed 's/ occurrences.*//' | tr '\n' ' ')
-  if [ $rc = 1 ]; then echo "CAUGHT by $id (rc=1): $classes"; elif [ $rc = 0 ]; then echo "missed by $id (rc=0)"; else echo "ERROR in $id (rc=$rc): $(tail -3 $log | tr '\n' ' ')"; fi
+  if [ $rc = 1 ]; then echo "CAUGHT by $id (rc=1): $classes"; elif [ $rc = 0 ]; then echo "missed by $id (rc=0)"; elif [ $rc = 124 ] || [ $rc = 137 ]; then echo "TIMEOUT in $id (check cut off after ${SEEDTEST_TIMEOUT:-1500}s): $classes"; else echo "ERROR in $id (rc=$rc): $(tail -3 $log | tr '\n' ' ')"; fi
 done
 git -C /repo checkout -- . ; git -C /repo status --short | head -3
 # leave binaries of the unchanged tree behind
